@@ -345,6 +345,35 @@ pub fn gen_median(rng: &mut Rng, tier: &Tier, acc_every: bool) -> Vec<Case> {
             }
         }
     }
+    // (d) widths beyond the range of a small index type
+    for &n in WIDE_WIDTHS.iter() {
+        for _ in 0..tier.n(1, 3) {
+            let len = n + rng.range(5, 40) as usize;
+            let vals: Vec<String> = int_seq(rng, len).iter().map(|x| x.to_string()).collect();
+            cases.push(median_case(n, "", &vals, acc_every));
+        }
+    }
+    cases
+}
+
+pub const WIDE_WIDTHS: [usize; 4] = [255, 256, 257, 300];
+
+/// one long run of a windowed filter at each of the wide widths
+fn wide_cases(rng: &mut Rng, tier: &Tier, kind: &str, obs: &[&str]) -> Vec<Case> {
+    let mut cases = Vec::new();
+    for &n in WIDE_WIDTHS.iter() {
+        for _ in 0..tier.n(1, 3) {
+            let mut c = vec![format!("new 1 {} N={}", kind, n)];
+            let len = n + rng.range(5, 40) as usize;
+            for x in int_seq(rng, len) {
+                c.push(format!("f 1 {}", x));
+            }
+            for o in obs {
+                c.push(format!("guts 1 {}", o));
+            }
+            cases.push(c);
+        }
+    }
     cases
 }
 
@@ -412,6 +441,7 @@ pub fn gen_mean(rng: &mut Rng, tier: &Tier) -> Vec<Case> {
             cases.push(c);
         }
     }
+    cases.extend(wide_cases(rng, tier, "mean", &["mean", "weight"]));
     // machine integers whose window sums all fit while larger intermediate sums would not: every sample lies within
     // +-(i64::MAX / N), so any N consecutive samples sum within range (the arithmetic the property prescribes -
     // subtract the evicted sample, then add the new one - never leaves it either); "the sample type's own
@@ -551,6 +581,8 @@ pub fn gen_deque(rng: &mut Rng, tier: &Tier) -> Vec<Case> {
     }
     deque_inject_cases(rng, tier, "max", &mut cases);
     deque_inject_cases(rng, tier, "min", &mut cases);
+    cases.extend(wide_cases(rng, tier, "max", &["time"]));
+    cases.extend(wide_cases(rng, tier, "min", &["time"]));
     cases
 }
 
@@ -641,6 +673,7 @@ pub fn gen_conv(rng: &mut Rng, tier: &Tier) -> Vec<Case> {
             cases.push(c);
         }
     }
+    cases.extend(wide_cases(rng, tier, "delay", &[]));
     cases
 }
 
@@ -724,6 +757,46 @@ pub fn gen_kalman(rng: &mut Rng, tier: &Tier) -> Vec<Case> {
     cases
 }
 
+/// a first sample that is a value but not a rational: infinities, zeros of either sign, NaN, the ends of the range
+fn special_first(rng: &mut Rng, t: &str) -> String {
+    let x: f64 = *rng.pick(&[f64::INFINITY, f64::NEG_INFINITY, -0.0, 0.0, f64::NAN, 1.5, -3.0]);
+    let edge = rng.chance(1, 4);
+    if t == "f64" {
+        let v = if edge { *rng.pick(&[f64::MAX, f64::MIN, f64::MIN_POSITIVE, 5e-324]) } else { x };
+        format!("x{:016x}", if v.is_nan() { 0x7ff8_0000_0000_0000 } else { v.to_bits() })
+    } else {
+        let v = if edge { *rng.pick(&[f32::MAX, f32::MIN, f32::MIN_POSITIVE, 1e-45]) } else { x as f32 };
+        format!("y{:08x}", if v.is_nan() { 0x7fc0_0000 } else { v.to_bits() })
+    }
+}
+fn fbits(t: &str, x: f64) -> String {
+    if t == "f64" { format!("x{:016x}", x.to_bits()) } else { format!("y{:08x}", (x as f32).to_bits()) }
+}
+/// the recursive smoothers / trackers at a float type: the first sample — after construction and after a reset — comes
+/// back as the value it is
+fn float_first_cases(rng: &mut Rng, n: usize, kinds: &[&str]) -> Vec<Case> {
+    let mut cases = Vec::new();
+    for _ in 0..n {
+        let t = *rng.pick(&["f64", "f32"]);
+        let g = |rng: &mut Rng| fbits(t, *rng.pick(&[0.0, 0.25, 0.5, 1.0, 0.75]));
+        let new = match *rng.pick(kinds) {
+            "ema" => format!("new 1 ema w={} T={}", g(rng), t),
+            "emedian" => format!("new 1 emedian pre={} mid={} post={} T={}", g(rng), g(rng), g(rng), t),
+            _ => format!("new 1 alphabeta alpha={} beta={} T={}", g(rng), g(rng), t),
+        };
+        let mut c = vec![new, format!("f 1 {}", special_first(rng, t))];
+        for _ in 0..rng.range(0, 3) {
+            c.push(format!("f 1 {}", fbits(t, rng.range(-8, 8) as f64 / 4.0)));
+        }
+        if rng.chance(1, 2) {
+            c.push("reset 1".into());
+            c.push(format!("f 1 {}", special_first(rng, t)));
+        }
+        cases.push(c);
+    }
+    cases
+}
+
 /// C13
 pub fn gen_smooth(rng: &mut Rng, tier: &Tier) -> Vec<Case> {
     let mut cases = single_kind_cases(rng, "ema", tier.n(300, 3000), 10, &["mean"]);
@@ -760,6 +833,7 @@ pub fn gen_smooth(rng: &mut Rng, tier: &Tier) -> Vec<Case> {
             cases.push(c);
         }
     }
+    cases.extend(float_first_cases(rng, tier.n(60, 600), &["ema", "emedian"]));
     cases
 }
 
@@ -814,6 +888,7 @@ pub fn gen_alphabeta(rng: &mut Rng, tier: &Tier) -> Vec<Case> {
         c.push("guts 1 velocity".into());
         cases.push(c);
     }
+    cases.extend(float_first_cases(rng, tier.n(40, 400), &["alphabeta"]));
     cases
 }
 
@@ -1122,11 +1197,19 @@ pub fn gen_copy(rng: &mut Rng, tier: &Tier) -> Vec<Case> {
         for _ in 0..tier.n(8, 80) {
             let k = random_kind(rng, kind);
             let mut c = vec![format!("new 1 {}", k.params)];
+            let mut made6 = false;
             for _ in 0..rng.range(2, 2 * k.width as i64 + 6) {
                 c.push("clone 1 2".into());
                 c.push("gutsrt 1 3".into());
                 c.push("fresh 1 5".into());
                 c.push("clonefrom 5 1".into());
+                // … and into a destination with a past of its own (instance 6 lives on across the iterations and is fed
+                // other samples than the original)
+                if !made6 {
+                    c.push("fresh 1 6".into());
+                    made6 = true;
+                }
+                c.push("clonefrom 6 1".into());
                 if kind.starts_with("cache") {
                     c.push("acc 5 cached".into());
                     // a copy of a warm cache remembers what the original remembers, before it is fed anything
@@ -1138,14 +1221,19 @@ pub fn gen_copy(rng: &mut Rng, tier: &Tier) -> Vec<Case> {
                 c.push(format!("f 2 {}", x));
                 c.push(format!("f 3 {}", x));
                 c.push(format!("f 5 {}", x));
+                c.push(format!("f 6 {}", x));
                 c.push(format!("f 1 {}", x));
                 c.push("same 1 2 C20.copy-continues".into());
                 c.push("same 1 3 C20.copy-continues".into());
                 c.push("same 1 5 C20.copy-continues".into());
+                c.push("same 1 6 C20.copy-continues".into());
                 // one step further on the copies only: the original must be unaffected by what its copies are fed
                 c.push(format!("f 2 {}", y));
                 c.push(format!("f 3 {}", y));
                 c.push("same 2 3 C20.copy-continues".into());
+                for _ in 0..rng.range(0, 3) {
+                    c.push(format!("f 6 {}", random_input(rng, &k)));
+                }
             }
             cases.push(c);
         }
@@ -1229,12 +1317,38 @@ fn with_lifecycle(cases: Vec<Case>, rng: &mut Rng) -> Vec<Case> {
         }
         let body: Vec<String> = c[news.len()..].to_vec();
         let mut v = c.clone();
-        match rng.below(4) {
+        // inputs of the case's own body, by instance: what a used destination of `clone_from` is fed beforehand
+        let inputs_of = |id: &str| -> Vec<String> {
+            body.iter().filter(|l| l.starts_with(&format!("f {} ", id))).map(|l| l[format!("f {} ", id).len()..].to_string()).collect()
+        };
+        // rewinding is only meaningful where all instances of the case are in step: right after an observation
+        let in_step: Vec<usize> = (1..body.len())
+            .filter(|&i| body[i].starts_with("f ") && (news.len() == 1 || !body[i - 1].starts_with("f ")))
+            .collect();
+        let pick = match rng.below(6) {
+            // (no rewinding where an instance's inputs encode the history of the whole signal: `compose` lines, the
+            // slope-driven peak detector fed by an external slope filter)
+            5 if in_step.is_empty() || c.iter().any(|l| l.starts_with("compose") || l.contains("peaks_slopes")) => 0,
+            k => k,
+        };
+        match pick {
             0 => {
                 for id in &news {
                     v.push(format!("reset {}", id));
                 }
                 v.extend(body.iter().cloned());
+            }
+            5 => {
+                // rewind to a snapshot: `filter.clone_from(&snapshot)` where the snapshot is a pristine instance and the
+                // filter has been used — afterwards the filter is what the snapshot is, nothing of its own past remains
+                let at = news.len() + *rng.pick(&in_step);
+                let tail: Vec<String> = v.split_off(at);
+                for id in &news {
+                    let snap = id.parse::<u64>().unwrap() + 50;
+                    v.push(format!("fresh {} {}", id, snap));
+                    v.push(format!("clonefrom {} {}", id, snap));
+                }
+                v.extend(tail);
             }
             k => {
                 let at = news.len() + rng.range(0, body.len() as i64) as usize;
@@ -1243,8 +1357,15 @@ fn with_lifecycle(cases: Vec<Case>, rng: &mut Rng) -> Vec<Case> {
                 for id in &news {
                     let copy = id.parse::<u64>().unwrap() + 50;
                     if op == "clonefrom" {
-                        // `Clone::clone_from` into an existing instance of the same type (freshly constructed)
+                        // `Clone::clone_from` into an existing instance of the same type: freshly constructed (k = 3),
+                        // or one that has a past of its own (k = 4) — none of which may survive
                         v.push(format!("fresh {} {}", id, copy));
+                        let ins = inputs_of(id);
+                        if k == 4 && !ins.is_empty() {
+                            for _ in 0..rng.range(1, 7) {
+                                v.push(format!("f {} {}", copy, rng.pick(&ins)));
+                            }
+                        }
                         v.push(format!("clonefrom {} {}", copy, id));
                     } else {
                         v.push(format!("{} {} {}", op, id, copy));
